@@ -23,7 +23,10 @@ CONFIGS = {
     # (iii) a responder policy that refuses CREATE_CHILD_SA from A's second entry (TS) and whose CHILD
     # proposal differs for new SAs requested by B (proposal): error replies take part in collisions
     'refuse': lambda: _refuse_confs(),
+    # (iv) IKE over IPv6 protecting IPv4 networks in tunnel mode: address family of the SA differs from its selectors
+    'v6-outer': lambda: _v6_outer_confs(),
 }
+ADDRS = {'v6-outer': {'A': ['2001:db8::1'], 'B': ['2001:db8::2']}}
 
 
 def _refuse_confs():
@@ -39,9 +42,18 @@ def _refuse_confs():
     return c
 
 
+def _v6_outer_confs():
+    c = S.base_confs(a_entry={'my_subnet': '10.1.0.0/24', 'peer_subnet': '10.2.0.0/24', 'mode': 'tunnel'},
+                     b_entry={'my_subnet': '10.2.0.0/24', 'peer_subnet': '10.1.0.0/24', 'mode': 'tunnel'})
+    ca, cb = c['A']['conn_ab'], c['B']['conn_ba']
+    ca['my_addr'], ca['peer_addr'] = '2001:db8::1', '2001:db8::2'
+    cb['my_addr'], cb['peer_addr'] = '2001:db8::2', '2001:db8::1'
+    return c
+
+
 def build(params):
     confs = CONFIGS[params['config']]()
-    w = S.established(confs, initiator=params.get('initiator', 'A'))
+    w = S.established(confs, initiator=params.get('initiator', 'A'), addrs=ADDRS.get(params['config']))
     P.set_budget(w, **params['budget'])
     return w
 
@@ -74,6 +86,8 @@ def scenario_list(quick):
             out.append(dict(config=cfg, budget=dict(trigA=2, trigB=2, fault=0)))
             out.append(dict(config=cfg, budget=dict(trig=2, fault=1)))
             out.append(dict(config=cfg, budget=dict(trig=3, fault=0)))
+    out.append(dict(config='v6-outer', budget=dict(trig=2, fault=0) if quick else dict(trigA=2, trigB=2, fault=0)))
+    out.append(dict(config='v6-outer', budget=dict(trig=1, fault=1) if quick else dict(trig=2, fault=1)))
     return out
 
 
